@@ -26,6 +26,8 @@ pub enum End {
     PanicStatic,
     /// `panic!("...{}", n)` — a formatted (String) payload, the commonest kind
     PanicFormatted(u32),
+    /// formatted payload of generated length and alphabet: (fill kind, byte length, offset)
+    PanicLong(u8, u16, u8),
     /// `panic_any(17u8)` — no message to carry
     PanicOther,
 }
@@ -57,6 +59,7 @@ pub fn strategy() -> impl Strategy<Value = Case> {
             4 => val().prop_map(End::Return),
             2 => Just(End::PanicStatic),
             2 => any::<u32>().prop_map(End::PanicFormatted),
+            2 => (0u8..4, prop_oneof![2 => 0u16..300, 2 => 900u16..1200, 1 => 1200u16..9000, 1 => Just(4095u16), 1 => Just(4096u16), 1 => Just(4097u16)], 0u8..4).prop_map(|(a, b, c)| End::PanicLong(a, b, c)),
             1 => Just(End::PanicOther),
         ],
         proptest::collection::vec(val(), 0..42),
@@ -121,6 +124,17 @@ impl Listener<u64, u64> for PanickyListener {
 
 const STATIC_MSG: &str = "c08 static panic message";
 
+/// the generated long message: `off` ASCII bytes, then the fill character repeated up to
+/// about `len` bytes (multi-byte characters make byte offsets fall inside a character)
+fn long_msg(kind: u8, len: u16, off: u8) -> String {
+    let fill = ["a", "\u{e9}", "\u{65e5}", "\u{1f600}"][kind as usize % 4];
+    let mut m = "x".repeat(off as usize);
+    while m.len() + fill.len() <= len as usize {
+        m.push_str(fill);
+    }
+    m
+}
+
 pub fn exec(c: &Case) -> Outcome {
     let k_total = c.yields.len();
     let end_at = (c.end_at as usize * (k_total + 1)) >> 16; // 0..=k_total, monotone
@@ -147,6 +161,7 @@ pub fn exec(c: &Case) -> Outcome {
                 End::Return(r) => r,
                 End::PanicStatic => panic!("c08 static panic message"),
                 End::PanicFormatted(n) => panic!("c08 formatted panic message #{n}"),
+                End::PanicLong(a, b, c) => panic!("{}", long_msg(a, b, c)),
                 End::PanicOther => std::panic::panic_any(17u8),
             }
         },
@@ -161,7 +176,8 @@ pub fn exec(c: &Case) -> Outcome {
         .nt(nt)
         .class_if(k >= 3, "3+yields")
         .class_if(matches!(c.end, End::PanicStatic), "panic-static-str")
-        .class_if(matches!(c.end, End::PanicFormatted(_)), "panic-formatted-string")
+        .class_if(matches!(c.end, End::PanicFormatted(_) | End::PanicLong(..)), "panic-formatted-string")
+        .class_if(matches!(c.end, End::PanicLong(_, l, _) if l > 1000), "panic-message-over-1000-bytes")
         .class_if(matches!(c.end, End::PanicOther), "panic-other-payload")
         .class_if(c.listener_panics != 0, "panicking-listener")
         .class_if(yields.iter().any(|y| y.1.is_some()), "timed-yield");
@@ -216,6 +232,17 @@ pub fn exec(c: &Case) -> Outcome {
                         o.set_fail(
                             "C08/panic/string-payload-message-lost",
                             format!("body panicked with the formatted message {want:?}; reported message is {m:?}"),
+                        );
+                        return o;
+                    }
+                }
+                (End::PanicLong(a, b, cc), CoroutineState::Error(m)) => {
+                    let want = long_msg(*a, *b, *cc);
+                    if m != want {
+                        o.set_fail(
+                            "C08/panic/long-message-altered",
+                            format!("body panicked with a {}-byte message, the reported message has {} bytes (first difference at byte {})",
+                                want.len(), m.len(), want.bytes().zip(m.bytes()).position(|(x, y)| x != y).unwrap_or(want.len().min(m.len()))),
                         );
                         return o;
                     }
